@@ -22,9 +22,9 @@ from . import pipe_tlc, pipe_worker, pipe_inputs
 
 LEVEL = "model_checking"
 
-QUICK = dict(bytes=400, soup=500, gram=900, valid=1100, nest=60, imports=300, xmod=168, mut=1800, trunc_per_file=16, sent=300,
+QUICK = dict(bytes=400, soup=500, gram=900, valid=1100, nest=60, imports=300, xmod=168, semsoup=1500, mut=1800, trunc_per_file=16, sent=300,
              cli=20, maxg=1, mc_compiles=1, workers=12)
-THOROUGH = dict(bytes=6000, soup=10000, gram=30000, valid=40000, nest=400, imports=6000, xmod=2520, mut=60000, trunc_per_file=10 ** 9, sent=6000,
+THOROUGH = dict(bytes=6000, soup=10000, gram=30000, valid=40000, nest=400, imports=6000, xmod=2520, semsoup=40000, mut=60000, trunc_per_file=10 ** 9, sent=6000,
                 cli=120, maxg=2, mc_compiles=2, workers=14)
 
 
@@ -34,7 +34,7 @@ def plan_jobs(cfg, seed):
     mains = pipe_inputs.corpus_mains(corpus)
     for i in range(0, len(mains), 6):
         jobs.append({"op": "c16", "fam": "corpus", "seed": seed, "names": mains[i:i + 6]})
-    for fam, chunk in (("bytes", 50), ("soup", 50), ("gram", 40), ("valid", 40), ("nest", 10), ("imports", 20), ("xmod", 21), ("mut", 25)):
+    for fam, chunk in (("bytes", 50), ("soup", 50), ("gram", 40), ("valid", 40), ("nest", 10), ("imports", 20), ("xmod", 21), ("semsoup", 50), ("mut", 25)):
         n = cfg[fam]
         for s in range(0, n, chunk):
             jobs.append({"op": "c16", "fam": fam, "seed": seed, "start": s, "count": min(chunk, n - s)})
@@ -170,7 +170,7 @@ def run(chk, only=None):
     cfg = dict(QUICK if chk.tier == "quick" else THOROUGH)
     scale = float(os.environ.get("VERIF_C16_SCALE", "1") or 1)     # development aid: shrink the input families
     if scale != 1:
-        for k in ("bytes", "soup", "gram", "valid", "nest", "imports", "xmod", "mut", "sent", "cli", "trunc_per_file"):
+        for k in ("bytes", "soup", "gram", "valid", "nest", "imports", "xmod", "semsoup", "mut", "sent", "cli", "trunc_per_file"):
             cfg[k] = max(1, int(cfg[k] * scale))
     seed = chk.seed
     want = lambda p: only is None or p in only
